@@ -59,7 +59,7 @@ class CallMixin:
         kind = meta[0]
         if kind == "lambda":
             fn = meta[1]
-            closure = meta[2] if meta[2] is not None else {}
+            closure = meta[2] if meta[2] is not None else dict(getattr(self, "free_env", {}))
             return self.inline_ast(st, fn, pos, kws, starred, closure, node, k, self_sv=None)
         if kind == "builtin":
             return self.builtin_call(st, meta[1], pos, kws, node, k)
@@ -471,7 +471,7 @@ class CallMixin:
             _, seq, start, elemfn = plan
             n = self.list_len(s1, seq.t) - start
             j = z3.Int(f"j!cmp{self._qid()}")
-            el = elemfn(s1, start + j)
+            el = elemfn(s1, z3.simplify(start + j))
             c, env = elem_cond(el)
             if consumer in ("any", "all"):
                 b = self.spec_bool(comp.elt, s1, dict(s1.locals, **env), old=self.entry)
@@ -494,11 +494,11 @@ class CallMixin:
                     s1.assume(m >= 0, m <= z3.If(n > 0, n, 0))
                     s1.assume(z3.ForAll([i], z3.Implies(z3.And(i >= 0, i < m), z3.And(idx[i] >= 0, idx[i] < n, pos_[idx[i]] == i)), patterns=[idx[i]]))
                     s1.assume(z3.ForAll([i, i2], z3.Implies(z3.And(i >= 0, i < i2, i2 < m), idx[i] < idx[i2]), patterns=[z3.MultiPattern(idx[i], idx[i2])]))
-                    el_i = elemfn(s1, start + idx[i])
+                    el_i = elemfn(s1, z3.simplify(start + idx[i]))
                     c_i, env_i = elem_cond(el_i)
                     val_i = self.spec_val(comp.elt, s1, dict(s1.locals, **env_i), old=self.entry)
-                    s1.assume(z3.ForAll([i], z3.Implies(z3.And(i >= 0, i < m), z3.And(c_i, arr[i] == val_i.t)), patterns=[arr[i]]))
-                    s1.assume(z3.ForAll([j], z3.Implies(z3.And(j >= 0, j < n, c), z3.And(pos_[j] >= 0, pos_[j] < m, idx[pos_[j]] == j)), patterns=[pos_[j]]))
+                    s1.assume(z3.ForAll([i], z3.Implies(z3.And(i >= 0, i < m), z3.And(c_i, arr[i] == val_i.t)), patterns=[arr[i], idx[i]]))
+                    s1.assume(z3.ForAll([j], z3.Implies(z3.And(j >= 0, j < n, c), z3.And(pos_[j] >= 0, pos_[j] < m, idx[pos_[j]] == j)), patterns=[pos_[j], el.t]))
                     self.set_list(s1, ref, arr, m, fresh=True)
                     s1.locals["$filter_src_len"] = sv_int(n)
                 return k(s1, SV(ref, "list"))
@@ -733,7 +733,7 @@ class _ExtView:
 
 def _harmless_decorator(d):
     txt = ast.unparse(d)
-    return txt in ("property", "staticmethod", "t.no_type_check", "trait", "mypyc_attr") or txt.startswith("mypyc_attr")
+    return txt in ("property", "staticmethod", "t.no_type_check", "trait", "mypyc_attr") or txt.startswith(("mypyc_attr", "wraps("))
 
 
 # tiny getters that are always inlined from their real source
